@@ -162,6 +162,10 @@ def oracle(case, ctx):
     except ValueError:
         ctx.ev.count(fn + ':rejected')
         return
+    decide(ctx, case, fn, p, f'seed {seed}', env, s0, [])
+
+
+def decide(ctx, case, fn, p, label, env, s0, extra_classes):
     d0 = objs.canon_state(s0)
     if c13.malformed(fn, p, d0):
         ctx.ev.count(fn + ':malformed(C13)')  # reported by C13; winnability is decided regardless
@@ -189,7 +193,7 @@ def oracle(case, ctx):
                 if FAMILY[fn][1] == 'memory' and good:
                     if M.bfs_path(d0, M.apos(d0), good[0]) is not None:
                         cause = 'nonmatching_exit_on_every_path'
-                ctx.fail(f'{fn}({p}) seed {seed}: no action sequence reaches the rewarded goal {good} from agent {d0["agent"][:3]} '
+                ctx.fail(f'{fn}({p}) {label}: no action sequence reaches the rewarded goal {good} from agent {d0["agent"][:3]} '
                          f'({nstates} states of the real step function searched exhaustively; cause: {cause}); grid: {["".join(c[0] for c in r) for r in d0["grid"]]}',
                          {'kind': 'unwinnable', 'fn': fn, 'cause': cause})
                 ctx.ev.case(case, nt=False, classes=[fn + ':unwinnable(known)'])
@@ -199,12 +203,84 @@ def oracle(case, ctx):
                 ctx.fail(f'{fn}: a witness found by BFS does not replay: {why}', {'kind': 'witness_replay'})
     manh = min((abs(g[0] - d0['agent'][0]) + abs(g[1] - d0['agent'][1]) for g in good), default=0)
     nt = len(plan) > manh or any(a in ('ACTUATE', 'PICK_N_DROP') for a in plan)
-    ctx.ev.case(case, nt=nt, classes=[fn + ':won', how], key=[fn, p, d0],
-                sample={'fn': fn, 'p': p, 'seed': seed, 'witness': plan[:40], 'how': how})
+    ctx.ev.case(case, nt=nt, classes=[fn + ':won', how] + extra_classes, key=[fn, p, d0],
+                sample={'fn': fn, 'p': p, 'label': label, 'witness': plan[:40], 'how': how})
+
+
+# ------------------------------------------------------------------ (b) long, thin layouts and adversarial placements
+
+LARGE_FUNCTIONS = ['rooms', 'rooms', 'memory_rooms', 'crossing', 'empty', 'keydoor', 'teleport', 'memory']
+
+
+@st.composite
+def large_params_s(draw, fn, tier):
+    """one long dimension (many rooms / rivers along it), the other kept small so that the exhaustive search stays cheap"""
+    top = 72 if tier == 'quick' else 130
+    if fn in ('rooms', 'memory_rooms'):
+        L = draw(st.integers(5, top))
+        r = draw(st.integers(1, max(1, min(14, (L - 1) // 2))))
+        W = draw(st.sampled_from([5, 7, 9]))
+        lw = draw(st.integers(1, 2))
+        shape, layout = [L, W], [r, lw]
+        if draw(st.booleans()):
+            shape, layout = shape[::-1], layout[::-1]
+        p = {'shape': shape, 'layout': layout}
+        if fn == 'memory_rooms':
+            p.update({'colors': ['RED', 'GREEN', 'BLUE'], 'num_beacons': 1, 'num_exits': draw(st.integers(2, 3))})
+        return p
+    if fn == 'crossing':
+        L = draw(st.integers(2, 20)) * 2 + 1
+        W = draw(st.sampled_from([5, 7, 9, 11, 13]))
+        shape = [L, W] if draw(st.booleans()) else [W, L]
+        return {'shape': shape, 'num_rivers': draw(st.integers(1, 9))}
+    L = draw(st.integers(5, top))
+    W = draw(st.integers(5, 8))
+    shape = [L, W] if draw(st.booleans()) else [W, L]
+    if fn == 'memory':
+        if shape[1] % 2 == 0:
+            shape[1] += 1
+        return {'shape': shape, 'colors': ['RED', 'BLUE', 'GREEN']}
+    if fn == 'empty':
+        return {'shape': shape, 'random_agent': draw(st.booleans()), 'random_exit': draw(st.booleans())}
+    return {'shape': shape}
+
+
+def strat_large(tier):
+    src = st.one_of(st.fixed_dictionaries({'seed': gen.seed_s}),
+                    st.fixed_dictionaries({'mode': st.sampled_from(['low', 'high']), 'prefix': st.sampled_from([0, 1, 2, 4, 8, 16, 40, 200]), 'salt': st.integers(0, 7)}))
+    return st.sampled_from(LARGE_FUNCTIONS).flatmap(lambda fn: st.fixed_dictionaries({'fn': st.just(fn), 'p': large_params_s(fn, tier), 'rng': src}))
+
+
+def oracle_large(case, ctx):
+    """the reset function is called directly with either a seeded generator or an adversarial one (legal extreme outcomes: the agent
+    or the exit in the last/first candidate cell, passages at the extreme candidate), then winnability is decided as in (a)"""
+    from vgv.advrng import AdvRng
+    from gym_gridverse.rng import make_rng
+    fn, p, r = case['fn'], case['p'], case['rng']
+    kw = dict(p)
+    kw['shape'] = Shape(*p['shape'])
+    if 'layout' in kw:
+        kw['layout'] = tuple(kw['layout'])
+    if 'colors' in kw:
+        kw['colors'] = set(go.Color[c] for c in kw['colors'])
+    if fn == 'crossing':
+        kw['object_type'] = go.Wall
+    rng = make_rng(r['seed']) if 'seed' in r else AdvRng(r['mode'], r['prefix'], r['salt'])
+    try:
+        s0 = REG[fn](**kw, rng=rng)
+    except ValueError:
+        ctx.ev.count(fn + ':rejected')
+        return
+    env = make_env(fn, p, 0)
+    label = f'seed {r["seed"]}' if 'seed' in r else f'adversarial generator {r}'
+    decide(ctx, case, fn, p, label, env, s0, ['long' if max(p['shape']) >= 31 else 'short', 'adversarial_rng' if 'mode' in r else 'seeded_rng'])
 
 
 CHECKS = [
     Check('winnable', oracle, strategy=strat, examples={'quick': 700, 'thorough': 2500}, shards={'quick': 8, 'thorough': 16},
           rule='8 reset functions x parameters (as in C13) x seeds; a model plan is executed on the real functional_step; otherwise exhaustive BFS over the real step decides',
           required=[f + ':won' for f in FAMILY] + ['model_plan']),
+    Check('long_layouts', oracle_large, strategy=strat_large, examples={'quick': 240, 'thorough': 1500}, shards={'quick': 8, 'thorough': 16},
+          rule='one dimension up to 72 (thorough 130) with up to 14 rooms / 9 rivers along it, the other small; seeded and adversarial generators (agent/exit in the extreme candidate cells); same decision as (a)',
+          required=['long', 'adversarial_rng', 'seeded_rng', 'rooms:won', 'crossing:won']),
 ]
